@@ -1,9 +1,11 @@
 ------------------------------- MODULE MC_Pdu -------------------------------
 (* every (response kind, transport, configured algorithm, deviation) case of Pdu.tla with the verdict the receiver must reach *)
 EXTENDS Integers, Sequences, FiniteSets, TLC, Json, Pdu
-Kinds == {"aggr", "ext", "aggrconf", "extconf"}
+(* aggrpush: a response PDU that carries (only) a configuration payload while a request is outstanding: the asynchronous and HA services hand *)
+(* such a pushed configuration to the caller (callback / PUSH_CONFIG_RECEIVED handle) -- content like any other                              *)
+Kinds == {"aggr", "ext", "aggrconf", "extconf", "aggrpush"}
 (* blocking = blocking TCP client, http = blocking HTTP client (scripted libcurl), async / ha = asynchronous TCP service, high-availability service *)
-Transports(k) == IF k = "aggr" THEN {"blocking", "http", "async", "ha"} ELSE {"blocking", "http"}
+Transports(k) == IF k = "aggr" THEN {"blocking", "http", "async", "ha"} ELSE IF k = "aggrpush" THEN {"async", "ha"} ELSE {"blocking", "http"}
 Cases == {[kind |-> k, transport |-> t, alg |-> a, dev |-> d] : k \in Kinds, t \in {"blocking", "http", "async", "ha"}, a \in {1, 5}, d \in Deviations}
 VARIABLE c
 Init == c \in {x \in Cases : x.transport \in Transports(x.kind)}
